@@ -833,6 +833,41 @@ func (r *Rng) c10WebRequest(types []string) string {
 	return sb.String()
 }
 
+// c10WebStateRequests interleaves the STATE-CHANGING endpoints into a request sequence: /saveconfig with
+// the option parameters of some view (saving a view must not change what any other URL shows) and, for
+// about half of them, a later /deleteconfig of the same name.
+func (r *Rng) c10WebStateRequests(types []string, others []string) []string {
+	if r.Chance(40) {
+		return others
+	}
+	out := append([]string{}, others...)
+	insert := func(at int, u string) {
+		if at > len(out) {
+			at = len(out)
+		}
+		out = append(out[:at], append([]string{u}, out[at:]...)...)
+	}
+	for i, n := 0, 1+r.Intn(2); i < n; i++ {
+		name := r.Pick([]string{"hot", "v1", "mine", "tmp2"})
+		q := ""
+		if v := r.c10WebRequest(types); strings.Contains(v, "?") {
+			q = "&" + v[strings.Index(v, "?")+1:]
+		}
+		if !strings.Contains(q, "f=") && r.Chance(60) {
+			q += "&f=" + c10QueryEscape(r.Pick(c10Regexes))
+		}
+		if r.Chance(40) {
+			q += "&" + r.Pick([]string{"h=" + c10QueryEscape(r.Pick(c10Regexes)), "g=lines", "g=files", "n=3", "calltree=t", "i=" + c10QueryEscape(r.Pick(c10Regexes)), "si=0", "th=req"})
+		}
+		at := r.Intn(len(out) + 1)
+		insert(at, "/saveconfig?config="+name+q)
+		if r.Bool() {
+			insert(at+1+r.Intn(len(out)-at), "/deleteconfig?config="+name)
+		}
+	}
+	return out
+}
+
 // c10WebFlags: options the web UI cannot change per request (no URL parameter), set for the whole case.
 func (r *Rng) c10WebFlags() map[string]string {
 	f := map[string]string{}
